@@ -79,6 +79,22 @@ func bals(b *B, n int) []uint64 {
 // a gap-slot node.
 func TourC09() []TourCase {
 	return []TourCase{
+		{"65536-vote-changes-between-two-head-computations", func(t *rapid.T) *Case {
+			// a whole slot of a large network votes between two head computations: exactly k*65536 accepted vote
+			// changes (and around that count), all for the branch that loses without them
+			b := NewB(t, "ok", 0, []uint64{3, 3, 3})
+			extra := []int{0, 0, 1, -1, 65536}[b.uni(5, "extra")]
+			n := 65536 + extra
+			b.c.Cfg.BalN, b.c.Cfg.BalEach = n, 1
+			s := uint64(1 + b.uni(2, "slot"))
+			b.Block(1, 2, s, 0, 0).Block(1, 3, s, 0, 0).Att(0, 2, s).Att(1, 2, s).Att(2, 3, s).Head()
+			b.op(Op{K: KAttN, V: 3, N: n, R: 3, S: s}).Head()
+			if b.uni(2, "again") == 1 {
+				// ... and once more in the next epoch, for the other branch
+				b.Block(2, 4, 4+s, 0, 0).Head().op(Op{K: KAttN, V: 3, N: n, R: 4, S: 4 + s}).Head()
+			}
+			return b.c
+		}},
 		{"tie-broken-by-root", func(t *rapid.T) *Case {
 			b := NewB(t, "ok", 0, []uint64{1, 1, 1, 1})
 			s := uint64(1 + b.uni(3, "slot"))
